@@ -147,7 +147,7 @@ PURE_METHODS = {"lower", "upper", "strip", "lstrip", "rstrip", "startswith", "en
                 "split", "isdigit", "isnumeric", "isdecimal", "find", "get", "keys", "items", "values", "count",
                 "join", "encode", "decode", "replace", "partition", "rpartition", "rsplit", "title", "isalpha", "isalnum",
                 "isspace", "isupper", "islower", "rfind", "index", "zfill", "hex", "capitalize", "swapcase", "group", "groups",
-                "translate", "isascii", "removeprefix", "removesuffix", "expandtabs", "splitlines", "copy"}
+                "translate", "isascii", "removeprefix", "removesuffix", "expandtabs", "splitlines", "copy", "end", "start", "span"}
 
 
 def _is_builtin_class(name):
@@ -546,6 +546,26 @@ class Explorer:
                     return {"any": any, "all": all, "sum": sum, "sorted": lambda x: tuple(sorted(x)), "list": tuple, "tuple": tuple}[e.func.id](v)
                 except Exception:
                     return UNKNOWN
+            if isinstance(e.func, ast.Attribute) and e.func.attr in ("finditer", "findall", "split", "sub") and e.args and not e.keywords:
+                # the other pure entry points of a pattern constant applied to known text
+                from .index import Regex as _Rx0
+                rx0 = self.ev(e.func.value, env)
+                if isinstance(rx0, _Rx0):
+                    args0 = [self.ev(a, env) for a in e.args]
+                    if all(isinstance(a, (str, bytes, int)) for a in args0) and any(type(a) is type(rx0.pattern) for a in args0):
+                        import re as _re0
+                        try:
+                            r0 = getattr(_re0.compile(rx0.pattern, rx0.flags), e.func.attr)(*args0)
+                            return tuple(r0) if e.func.attr in ("finditer", "findall", "split") else r0
+                        except Exception:
+                            return UNKNOWN
+                    return UNKNOWN
+            if isinstance(e.func, ast.Name) and e.func.id == "enumerate" and 1 <= len(e.args) <= 2 and not e.keywords:
+                seq0 = self.ev(e.args[0], env)
+                st0 = self.ev(e.args[1], env) if len(e.args) == 2 else 0
+                if isinstance(seq0, (tuple, list, str, bytes)) and isinstance(st0, int):
+                    return tuple(enumerate(seq0, st0))
+                return UNKNOWN
             if isinstance(e.func, ast.Attribute) and e.func.attr in ("fullmatch", "match", "search") and len(e.args) == 1 and not e.keywords:
                 # a pattern constant of the repository applied to a known string: the (pure) regular-expression library
                 # decides; the pattern is data, no repository code runs
@@ -566,7 +586,7 @@ class Explorer:
                 if recv is UNKNOWN or any(a is UNKNOWN for a in args):
                     return UNKNOWN
                 import re as _re2
-                if isinstance(recv, (str, bytes, tuple, dict)) or (isinstance(recv, _re2.Match) and e.func.attr in ("group", "groups")):
+                if isinstance(recv, (str, bytes, tuple, dict)) or (isinstance(recv, _re2.Match) and e.func.attr in ("group", "groups", "end", "start", "span")):
                     try:
                         return getattr(recv, e.func.attr)(*args)
                     except Exception:
